@@ -149,6 +149,20 @@ class HilbertClimateNetwork(ClimateNetwork):
             if directed:
                 self.adjacency = self.adjacency * (self.phase_shift() > 0)
 
+    def set_threshold(self, threshold):
+        """
+        Generate the Hilbert climate network by thresholding the coherence.
+
+        For directed networks, the links are directed according to the
+        average phase shift, as it is done at construction.
+
+        :arg float threshold: The threshold of similarity measure, above which
+            two nodes are linked in the network.
+        """
+        ClimateNetwork.set_threshold(self, threshold)
+        if self.directed:
+            self.adjacency = self.adjacency * (self.phase_shift() > 0)
+
     def set_directed(self, directed):
         """
         Switch between directed and undirected Hilbert climate network.
